@@ -1,6 +1,7 @@
 //! C07: the reference skeleton of a duke `ClassFile` (mirror of lean/FeatherModel/Model/RemapTree.lean), its projection
-//! from the real tree (public fields; crate-private ones through their derived `Debug` output), its S-expression
-//! (wire format: lean/FeatherModel/Driver/C07.lean), the independent reference traversal and the shape.
+//! from the real tree (public fields; record components and module data by reading their derived `Debug` output,
+//! `c07dbg.rs`, because their fields are crate-private in trees older than the repair of records / modules), its
+//! S-expression (wire format: lean/FeatherModel/Driver/C07.lean), the independent reference traversal and the shape.
 use java_string::{JavaStr, JavaString};
 use duke::tree::annotation::{Annotation, ElementValue, Object};
 use duke::tree::class::{ClassFile, EnclosingMethod, InnerClass};
@@ -10,6 +11,7 @@ use duke::tree::method::code::{Code, ConstantDynamic, Handle, Instruction, Instr
 use duke::tree::record::RecordComponent;
 use duke::tree::type_annotation::TypeAnnotation;
 use duke::visitor::method::code::{StackMapData, VerificationTypeInfo};
+use crate::c07dbg::{self, D, K};
 use crate::sexp::Sexp;
 
 pub type S = JavaString;
@@ -31,11 +33,13 @@ pub type S = JavaString;
 #[derive(Clone, Debug, PartialEq)] pub struct Me { pub shape: Sexp, pub name: S, pub desc: S, pub code: Option<Co>, pub excs: Option<Vec<S>>, pub sig: Option<S>, pub rva: Vec<Ann>, pub ria: Vec<Ann>, pub rvta: Vec<TAnn>, pub rita: Vec<TAnn>, pub ad: Option<Ev>, pub params: Sexp, pub attrs: Vec<Sexp> }
 #[derive(Clone, Debug, PartialEq)] pub struct Ic { pub inner: S, pub outer: Option<S>, pub name: Option<S>, pub flags: Sexp }
 #[derive(Clone, Debug, PartialEq)] pub struct Enc { pub cls: S, pub method: Option<(S, S)> }
-#[derive(Clone, Debug, PartialEq)] pub struct Rc { pub name: S, pub desc: S, pub rest: Sexp }
+#[derive(Clone, Debug, PartialEq)] pub struct Rc { pub name: S, pub desc: S, pub sig: Option<S>, pub rva: Vec<Ann>, pub ria: Vec<Ann>, pub rvta: Vec<TAnn>, pub rita: Vec<TAnn>, pub attrs: Vec<Sexp> }
+#[derive(Clone, Debug, PartialEq)] pub struct Prov { pub name: S, pub with: Vec<S> }
+#[derive(Clone, Debug, PartialEq)] pub struct Mo { pub shape: Sexp, pub uses: Vec<S>, pub provides: Vec<Prov> }
 #[derive(Clone, Debug, PartialEq)] pub struct Cl {
 	pub shape: Sexp, pub name: S, pub sup: Option<S>, pub itfs: Vec<S>, pub fields: Vec<Fi>, pub methods: Vec<Me>,
 	pub ics: Option<Vec<Ic>>, pub encl: Option<Enc>, pub sig: Option<S>, pub rva: Vec<Ann>, pub ria: Vec<Ann>, pub rvta: Vec<TAnn>, pub rita: Vec<TAnn>,
-	pub module: Option<Sexp>, pub mpk: Option<Vec<S>>, pub mmc: Option<S>, pub nh: Option<S>, pub nm: Option<Vec<S>>, pub ps: Option<Vec<S>>,
+	pub module: Option<Mo>, pub mpk: Option<Vec<S>>, pub mmc: Option<S>, pub nh: Option<S>, pub nm: Option<Vec<S>>, pub ps: Option<Vec<S>>,
 	pub rcs: Vec<Rc>, pub attrs: Vec<Sexp>,
 }
 
@@ -197,7 +201,59 @@ fn p_inner(i: &InnerClass) -> Ic {
 fn p_encl(e: &EnclosingMethod) -> Enc {
 	Enc { cls: js(e.class.as_inner()), method: e.method.as_ref().map(|m| (js(m.name.as_inner()), js(m.desc.as_inner()))) }
 }
-fn p_rc(c: &RecordComponent) -> Rc { Rc { name: js(c.name.as_inner()), desc: js(c.descriptor.as_inner()), rest: dbg(c) } }
+
+// record components and module data: read from the derived `Debug` output
+fn raw(d: &D) -> Sexp { Sexp::str(d.raw) }
+fn d_ev(d: &D) -> Result<Ev, String> {
+	Ok(match &d.k {
+		K::Ctor("Object", v) if v.len() == 1 => Ev::Obj(raw(&v[0])),
+		K::Struct("Enum", _) => Ev::Enum(d.field("type_name")?.text()?, d.field("const_name")?.text()?),
+		K::Ctor("Class", v) if v.len() == 1 => Ev::Cls(v[0].text()?),
+		K::Ctor("AnnotationInterface", v) if v.len() == 1 => Ev::Ann(Box::new(d_ann(&v[0])?)),
+		K::Ctor("ArrayType", v) if v.len() == 1 => Ev::Arr(v[0].list()?.iter().map(d_ev).collect::<Result<_, _>>()?),
+		_ => return Err(format!("element value: {}", d.raw)),
+	})
+}
+fn d_ann(d: &D) -> Result<Ann, String> {
+	match &d.k {
+		K::Ann(ty, pairs) => Ok(Ann { ty: ty.text()?, pairs: pairs.iter().map(|(n, v)| Ok((n.clone(), d_ev(v)?))).collect::<Result<_, String>>()? }),
+		_ => Err(format!("annotation: {}", d.raw)),
+	}
+}
+fn d_tann(d: &D) -> Result<TAnn, String> {
+	Ok(TAnn { target: l(vec![raw(d.field("type_reference")?), raw(d.field("type_path")?)]), ann: d_ann(d.field("annotation")?)? })
+}
+fn d_rc(d: &D) -> Result<Rc, String> {
+	let anns = |f: &str| -> Result<Vec<Ann>, String> { d.field(f)?.list()?.iter().map(d_ann).collect() };
+	let tanns = |f: &str| -> Result<Vec<TAnn>, String> { d.field(f)?.list()?.iter().map(d_tann).collect() };
+	Ok(Rc {
+		name: d.field("name")?.text()?, desc: d.field("descriptor")?.text()?,
+		sig: match d.field("signature")?.opt()? { None => None, Some(x) => Some(x.text()?) },
+		rva: anns("runtime_visible_annotations")?, ria: anns("runtime_invisible_annotations")?,
+		rvta: tanns("runtime_visible_type_annotations")?, rita: tanns("runtime_invisible_type_annotations")?,
+		attrs: d.field("attributes")?.list()?.iter().map(raw).collect(),
+	})
+}
+fn p_rc(c: &RecordComponent) -> Rc {
+	let text = format!("{:?}", c);
+	let d = c07dbg::parse(&text).unwrap_or_else(|e| panic!("Debug output of a record component not understood ({e}): {text}"));
+	let rc = d_rc(&d).unwrap_or_else(|e| panic!("Debug output of a record component not understood ({e}): {text}"));
+	assert!(rc.name == *c.name.as_inner() && rc.desc == *c.descriptor.as_inner(), "Debug output of a record component misread: {text}");
+	rc
+}
+fn d_module(d: &D) -> Result<Mo, String> {
+	let names = |x: &D| -> Result<Vec<S>, String> { x.list()?.iter().map(|n| n.text()).collect() };
+	Ok(Mo {
+		shape: l(["name", "flags", "version", "requires", "exports", "opens"].iter().map(|f| d.field(f).map(raw)).collect::<Result<_, _>>()?),
+		uses: names(d.field("uses")?)?,
+		provides: d.field("provides")?.list()?.iter().map(|p| Ok(Prov { name: p.field("name")?.text()?, with: names(p.field("provides_with")?)? })).collect::<Result<_, String>>()?,
+	})
+}
+fn p_module<T: std::fmt::Debug>(m: &T) -> Mo {
+	let text = format!("{:?}", m);
+	let d = c07dbg::parse(&text).unwrap_or_else(|e| panic!("Debug output of a module not understood ({e}): {text}"));
+	d_module(&d).unwrap_or_else(|e| panic!("Debug output of a module not understood ({e}): {text}"))
+}
 
 /// the reference skeleton of a class
 pub fn project(c: &ClassFile) -> Cl {
@@ -210,7 +266,7 @@ pub fn project(c: &ClassFile) -> Cl {
 		sig: c.signature.as_ref().map(|s| js(s.as_inner())),
 		rva: c.runtime_visible_annotations.iter().map(p_ann).collect(), ria: c.runtime_invisible_annotations.iter().map(p_ann).collect(),
 		rvta: c.runtime_visible_type_annotations.iter().map(p_tann).collect(), rita: c.runtime_invisible_type_annotations.iter().map(p_tann).collect(),
-		module: c.module.as_ref().map(|m| dbg(m)),
+		module: c.module.as_ref().map(p_module),
 		mpk: c.module_packages.as_ref().map(|v| v.iter().map(|x| js(x.as_inner())).collect()),
 		mmc: c.module_main_class.as_ref().map(|x| js(x.as_inner())),
 		nh: c.nest_host_class.as_ref().map(|x| js(x.as_inner())),
@@ -289,14 +345,15 @@ pub fn class_to_sexp(c: &Cl) -> Sexp {
 		eo(&c.ics, |v| el(v, |i| l(vec![es(&i.inner), eo(&i.outer, es), eo(&i.name, es), i.flags.clone()]))),
 		eo(&c.encl, |e| l(vec![es(&e.cls), eo(&e.method, |(n, d)| l(vec![es(n), es(d)]))])),
 		eo(&c.sig, es), el(&c.rva, e_ann), el(&c.ria, e_ann), el(&c.rvta, e_tann), el(&c.rita, e_tann),
-		eo(&c.module, |m| m.clone()), eo(&c.mpk, |v| el(v, es)), eo(&c.mmc, es), eo(&c.nh, es), eo(&c.nm, |v| el(v, es)), eo(&c.ps, |v| el(v, es)),
-		el(&c.rcs, |r| l(vec![es(&r.name), es(&r.desc), r.rest.clone()])), l(c.attrs.clone())])
+		eo(&c.module, |m| l(vec![m.shape.clone(), el(&m.uses, es), el(&m.provides, |p| l(vec![es(&p.name), el(&p.with, es)]))])), eo(&c.mpk, |v| el(v, es)), eo(&c.mmc, es), eo(&c.nh, es), eo(&c.nm, |v| el(v, es)), eo(&c.ps, |v| el(v, es)),
+		el(&c.rcs, |r| l(vec![es(&r.name), es(&r.desc), eo(&r.sig, es), el(&r.rva, e_ann), el(&r.ria, e_ann), el(&r.rvta, e_tann), el(&r.rita, e_tann),
+			l(r.attrs.clone())])), l(c.attrs.clone())])
 }
 
 // ------------------------------------------------------------------ the independent traversal (spec side; mirror of RemapSpec.lean)
 
 #[derive(Clone, Debug, PartialEq)]
-pub enum Ref { Cls(S), Any(S), Desc(S), Dyn(S), FieldDecl(S, S), MethodDecl(S, S), FieldRef(MRef), MethodRef(MRef), EnumConst(S, S) }
+pub enum Ref { Cls(S), Any(S), Desc(S), Dyn(S), FieldDecl(S, S), MethodDecl(S, S), FieldRef(MRef), MethodRef(MRef), EnumConst(S, S), RecordDecl(S, S) }
 
 pub fn ref_to_sexp(r: &Ref) -> Sexp {
 	match r {
@@ -309,6 +366,7 @@ pub fn ref_to_sexp(r: &Ref) -> Sexp {
 		Ref::FieldRef(f) => l(vec![tag("fr"), e_ref(f)]),
 		Ref::MethodRef(m) => l(vec![tag("mr"), e_ref(m)]),
 		Ref::EnumConst(t, c) => l(vec![tag("ec"), es(t), es(c)]),
+		Ref::RecordDecl(n, d) => l(vec![tag("rd"), es(n), es(d)]),
 	}
 }
 
@@ -388,10 +446,19 @@ pub fn refs(c: &Cl) -> Vec<Ref> {
 	}
 	for a in &c.rva { r_ann(a, &mut out) } for a in &c.ria { r_ann(a, &mut out) }
 	for t in &c.rvta { r_ann(&t.ann, &mut out) } for t in &c.rita { r_ann(&t.ann, &mut out) }
+	if let Some(m) = &c.module {
+		for u in &m.uses { out.push(Ref::Any(u.clone())) }
+		for p in &m.provides { out.push(Ref::Any(p.name.clone())); for w in &p.with { out.push(Ref::Any(w.clone())) } }
+	}
+	if let Some(n) = &c.mmc { out.push(Ref::Any(n.clone())) }
 	if let Some(n) = &c.nh { out.push(Ref::Any(n.clone())) }
 	if let Some(v) = &c.nm { for n in v { out.push(Ref::Any(n.clone())) } }
 	if let Some(v) = &c.ps { for n in v { out.push(Ref::Any(n.clone())) } }
-	for r in &c.rcs { out.push(Ref::FieldDecl(r.name.clone(), r.desc.clone())) }
+	for r in &c.rcs {
+		out.push(Ref::RecordDecl(r.name.clone(), r.desc.clone()));
+		for a in &r.rva { r_ann(a, &mut out) } for a in &r.ria { r_ann(a, &mut out) }
+		for t in &r.rvta { r_ann(&t.ann, &mut out) } for t in &r.rita { r_ann(&t.ann, &mut out) }
+	}
 	out
 }
 
@@ -447,17 +514,14 @@ pub fn erase(c: &Cl) -> Cl {
 		methods: c.methods.iter().map(|m| Me { shape: m.shape.clone(), name: b(), desc: b(), code: m.code.as_ref().map(x_code), excs: bl(&m.excs), sig: m.sig.clone(),
 			rva: m.rva.iter().map(x_ann).collect(), ria: m.ria.iter().map(x_ann).collect(), rvta: m.rvta.iter().map(x_tann).collect(),
 			rita: m.rita.iter().map(x_tann).collect(), ad: m.ad.as_ref().map(x_ev), params: m.params.clone(), attrs: m.attrs.clone() }).collect(),
-		ics: c.ics.as_ref().map(|v| v.iter().map(|i| Ic { inner: b(), outer: i.outer.as_ref().map(|_| b()), name: i.name.clone(), flags: i.flags.clone() }).collect()),
+		ics: c.ics.as_ref().map(|v| v.iter().map(|i| Ic { inner: b(), outer: i.outer.as_ref().map(|_| b()), name: i.name.as_ref().map(|_| b()), flags: i.flags.clone() }).collect()),
 		encl: c.encl.as_ref().map(|e| Enc { cls: b(), method: e.method.as_ref().map(|_| (b(), b())) }),
 		sig: c.sig.clone(), rva: c.rva.iter().map(x_ann).collect(), ria: c.ria.iter().map(x_ann).collect(),
 		rvta: c.rvta.iter().map(x_tann).collect(), rita: c.rita.iter().map(x_tann).collect(),
-		module: c.module.clone(), mpk: c.mpk.clone(), mmc: c.mmc.clone(), nh: c.nh.as_ref().map(|_| b()), nm: bl(&c.nm), ps: bl(&c.ps),
-		rcs: c.rcs.iter().map(|r| Rc { name: b(), desc: b(), rest: r.rest.clone() }).collect(), attrs: c.attrs.clone(),
+		module: c.module.as_ref().map(|m| Mo { shape: m.shape.clone(), uses: m.uses.iter().map(|_| b()).collect(),
+			provides: m.provides.iter().map(|p| Prov { name: b(), with: p.with.iter().map(|_| b()).collect() }).collect() }),
+		mpk: c.mpk.clone(), mmc: c.mmc.as_ref().map(|_| b()), nh: c.nh.as_ref().map(|_| b()), nm: bl(&c.nm), ps: bl(&c.ps),
+		rcs: c.rcs.iter().map(|r| Rc { name: b(), desc: b(), sig: r.sig.clone(), rva: r.rva.iter().map(x_ann).collect(), ria: r.ria.iter().map(x_ann).collect(),
+			rvta: r.rvta.iter().map(x_tann).collect(), rita: r.rita.iter().map(x_tann).collect(), attrs: r.attrs.clone() }).collect(), attrs: c.attrs.clone(),
 	}
-}
-/// nothing that remap.rs drops (mirror of `Kept`)
-pub fn kept(c: &Cl) -> bool {
-	c.fields.iter().all(|f| f.attrs.is_empty())
-		&& c.methods.iter().all(|m| m.attrs.is_empty() && m.code.as_ref().map_or(true, |c| c.attrs.is_empty()))
-		&& c.module.is_none() && c.mpk.is_none() && c.mmc.is_none() && c.rcs.is_empty() && c.attrs.is_empty()
 }
